@@ -17,7 +17,9 @@ inductive VReach (prog : List (List String)) : VSt → Prop
     operations are run one at a time in commit order, and every committed operation returned what the
     specification returns at its place. Each operation commits at one step of its own call — the
     lookup of a hit under the read lock; the get-or-create under the write lock after a miss (where
-    the key is looked up AGAIN); the remove / reset under the write lock; a collect's key set at its
+    the key is looked up AGAIN); the remove / reset under the write lock (a remove may look the key up
+    under the read lock first: an absent key commits there, a present one at the write lock, where it
+    is looked up AGAIN - `remove_precheck_accepted`); a collect's key set at its
     read lock and each child value at its load; an update through a handle at its fetch_add — so the
     order is consistent with real time. -/
 theorem vec_linearizable {prog : List (List String)} {s : VSt} (h : VReach prog s) :
@@ -140,6 +142,69 @@ theorem vec_idle_thread_may_have_committed :
       opName_with_a, opArg_with_a, opName_reset, endsWith_0u, endsWith_0, VSpec.lookup, VSpec.apply]
   obtain ⟨s, hr, th, th', x, y, h1, h2, h3, h4, h5, h6, h7, h8⟩ := h
   exact ⟨s, vReach_iff_vRun.2 (runItems_vRun hr), .init, th, th', x, y, h1, h2, h3, h4, h5, h6, h7, h8, by omega⟩
+
+/-! ### the pre-checked remove: a read-locked lookup before the write-locked remove -/
+
+/-- **remove_precheck_accepted** — the machine accepts a `remove` that first looks the key up under the
+    READ lock, and both outcomes of that lookup are reachable:
+    (1) `rmAbsentTrace`: the key is absent; the call commits `.remove "a"` with result `.err` at its read
+        lock, completes at the read unlock and returns "err" - the whole run contains no write lock; the
+        program is finished (`allDone`), the lock is free, the log is that one entry;
+    (2) `rmPresentTrace`: the key is present; after the read-locked section (the first 9 items) NOTHING
+        has been committed for the remove (the log is the `with`'s get-or-create alone) and the thread
+        expects the write lock (`rmNeedW`); the write-locked section then commits `.remove "a"` with
+        result `.ok`, the call returns "ok", the key is gone;
+    (3) `rmGapTrace`: as (2), but another thread's `reset` runs between the read-locked lookup and the
+        write-locked remove: the remove commits AFTER the reset, with result `.err`, and returns "err".
+    All three end states are `VReach`able, so `vec_linearizable`, `keys_distinct`, `vec_real_time_order`
+    … apply to them. -/
+theorem remove_precheck_accepted :
+    (∃ s, runItems vItem (vInit [["rm:a"]]) rmAbsentTrace 0 = .ok s ∧ VReach [["rm:a"]] s ∧
+      allDone s.ths = true ∧ s.lin = [⟨0, 0, .remove "a", .err⟩] ∧ s.spec.map = [] ∧
+      s.lockW = none ∧ s.lockR = []) ∧
+    (∃ s1 s, runItems vItem (vInit [["with:a", "rm:a"]]) (rmPresentTrace.take 9) 0 = .ok s1 ∧
+      s1.lin = [⟨0, 0, .getOrCreate "a", .child 0⟩] ∧ s1.spec.map = [("a", 0)] ∧
+      s1.ths.map (·.pc) = [some (.rmNeedW "rm:a")] ∧ s1.lockW = none ∧ s1.lockR = [] ∧
+      runItems vItem (vInit [["with:a", "rm:a"]]) rmPresentTrace 0 = .ok s ∧ VReach [["with:a", "rm:a"]] s ∧
+      allDone s.ths = true ∧
+      s.lin = [⟨0, 0, .getOrCreate "a", .child 0⟩, ⟨0, 1, .remove "a", .ok⟩] ∧ s.spec.map = [] ∧
+      s.lockW = none ∧ s.lockR = []) ∧
+    (∃ s, runItems vItem (vInit [["with:a", "rm:a"], ["reset"]]) rmGapTrace 0 = .ok s ∧
+      VReach [["with:a", "rm:a"], ["reset"]] s ∧ allDone s.ths = true ∧
+      s.lin = [⟨0, 0, .getOrCreate "a", .child 0⟩, ⟨1, 0, .reset, .unit⟩, ⟨0, 1, .remove "a", .err⟩] ∧
+      s.spec.map = [] ∧ s.lockW = none ∧ s.lockR = []) := by
+  have r0 : Nat.repr 0 = "0" := by decide +kernel
+  have r1 : Nat.repr 1 = "1" := by decide +kernel
+  have reach : ∀ {prog tr s}, runItems vItem (vInit prog) tr 0 = .ok s → VReach prog s :=
+    fun hr => vReach_iff_vRun.2 (runItems_vRun hr)
+  refine ⟨?_, ?_, ?_⟩
+  · have h : ∃ s, runItems vItem (vInit [["rm:a"]]) rmAbsentTrace 0 = .ok s ∧
+        allDone s.ths = true ∧ s.lin = [⟨0, 0, .remove "a", .err⟩] ∧ s.spec.map = [] ∧
+        s.lockW = none ∧ s.lockR = [] := by
+      simp [runItems, rmAbsentTrace, vInit, vItem, vStep, vEff, Conc.guard, openCall, closeCall, allDone, r0,
+        opName_rm_a, opArg_rm_a, endsWith_0, VSpec.lookup, VSpec.apply]
+    obtain ⟨s, hr, h1⟩ := h
+    exact ⟨s, hr, reach hr, h1⟩
+  · have h : ∃ s1 s, runItems vItem (vInit [["with:a", "rm:a"]]) (rmPresentTrace.take 9) 0 = .ok s1 ∧
+        s1.lin = [⟨0, 0, .getOrCreate "a", .child 0⟩] ∧ s1.spec.map = [("a", 0)] ∧
+        s1.ths.map (·.pc) = [some (.rmNeedW "rm:a")] ∧ s1.lockW = none ∧ s1.lockR = [] ∧
+        runItems vItem (vInit [["with:a", "rm:a"]]) rmPresentTrace 0 = .ok s ∧
+        allDone s.ths = true ∧
+        s.lin = [⟨0, 0, .getOrCreate "a", .child 0⟩, ⟨0, 1, .remove "a", .ok⟩] ∧ s.spec.map = [] ∧
+        s.lockW = none ∧ s.lockR = [] := by
+      simp [runItems, rmPresentTrace, vInit, vItem, vStep, vEff, setHandle, Conc.guard, openCall, closeCall, allDone,
+        r0, r1, opName_with_a, opArg_with_a, opName_rm_a, opArg_rm_a, endsWith_0, endsWith_1, VSpec.lookup, VSpec.apply]
+    obtain ⟨s1, s, h1, h2, h3, h4, h5, h6, hr, h7⟩ := h
+    exact ⟨s1, s, h1, h2, h3, h4, h5, h6, hr, reach hr, h7⟩
+  · have h : ∃ s, runItems vItem (vInit [["with:a", "rm:a"], ["reset"]]) rmGapTrace 0 = .ok s ∧
+        allDone s.ths = true ∧
+        s.lin = [⟨0, 0, .getOrCreate "a", .child 0⟩, ⟨1, 0, .reset, .unit⟩, ⟨0, 1, .remove "a", .err⟩] ∧
+        s.spec.map = [] ∧ s.lockW = none ∧ s.lockR = [] := by
+      simp [runItems, rmGapTrace, vInit, vItem, vStep, vEff, setHandle, Conc.guard, openCall, closeCall, allDone,
+        r0, r1, opName_with_a, opArg_with_a, opName_rm_a, opArg_rm_a, opName_reset, endsWith_0, endsWith_1,
+        VSpec.lookup, VSpec.apply]
+    obtain ⟨s, hr, h1⟩ := h
+    exact ⟨s, hr, reach hr, h1⟩
 
 /-! ### consequences of the sequential specification (what "behaves like a map" means) -/
 
